@@ -740,12 +740,23 @@ func (e *Enc) cellArgEffects(fr *Frame, cs *callSite) {
 	visit = func(v Val) {
 		switch x := v.(type) {
 		case *PtrV:
-			if x.A.Kind == ACell {
+			switch x.A.Kind {
+			case ACell:
 				e.havocCell(fr.curState, x.A.Cell)
+			case AField, AElem, AGlobal:
+				// the address of a field / element / global handed to the callee: it may be
+				// written through (also when boxed into an interface argument)
+				if x.Elem != nil {
+					e.store(fr.curState, x.A, x.Elem, e.fresh(x.Elem, "ptrarg"))
+				}
 			}
 		case *SliceV:
 			if x.FromCell != nil {
 				e.havocCell(fr.curState, x.FromCell)
+			}
+			if info, ok := e.arrViews[x.Base.S]; ok {
+				// a view of a heap-resident array: the callee may overwrite the array
+				e.store(fr.curState, info.addr, info.typ, e.fresh(info.typ, "viewhv"))
 			}
 		case *IfaceV:
 			if x.Boxed != nil {
